@@ -51,10 +51,12 @@ BlankWrappers == LET d0 == Doc(file0, CfgAt(clk)) IN
 \* the second recorded finding (KnownFindings!KF_C19_BlankWrapperLead), same definition
 BlankWrapperLead == LET d0 == Doc(file0, CfgAt(clk)) IN
   \E e \in d0.elems :
-     /\ e.uw /\ e.m >= 2 /\ IsBlankLine(LineText(file0, d0.br, e.lo + 1))
-     /\ \E x \in d0.elems : LET k == e.lo + 2 IN
-           /\ LineOf(d0.br, x.os) = k /\ LineOf(d0.br, x.ce - 1) = k
-           /\ AllBlank(Slice(file0, LineS(d0.br, k), x.os)) /\ ~AllBlank(Slice(file0, x.ce, LineE(file0, d0.br, k)))
+     /\ e.uw /\ e.m >= 2
+     /\ \E w \in {e.lo + 1, e.lc - 1} :
+           /\ IsBlankLine(LineText(file0, d0.br, w))
+           /\ \E x \in d0.elems : LET k == w + 1 IN
+                 /\ LineOf(d0.br, x.os) = k /\ LineOf(d0.br, x.ce - 1) = k
+                 /\ AllBlank(Slice(file0, LineS(d0.br, k), x.os)) /\ ~AllBlank(Slice(file0, x.ce, LineE(file0, d0.br, k)))
 
 Idempotent == (phase = "run" /\ fresh /\ Space) => ImplClean(cur, CfgAt(clk)).out = cur
 Composes   == (phase = "run" /\ fresh /\ Space /\ ~BlankWrappers /\ ~BlankWrapperLead) => NonWs(cur) = NonWs(ImplClean(file0, CfgAt(clk)).out)
